@@ -75,6 +75,10 @@ CLAIMS = {
          "Necessary conditions: every output stream of the three reply writers (all paths, loops 0/1 times) is a well-formed bencoded dictionary with literal keys strictly ascending at each level and every length prefix agreeing with its payload (N*6 with 4+2 bytes per element of the same list, N*18 with 16+2, `20:` with a [u8; 20], len(msg) with msg), files keyed by a BTreeMap; request writer and reader agree key by key on the struct field and codec (urlencode/urldecode 20 bytes, itoa/parse::<u16|usize>, event literals vs from_str), unknown keys ignored; urldecode_20_bytes `?`-checks every char, compares with 255, decodes exactly two hex chars and tests exhaustion; untagged Response is unambiguous.",
          "Trusted: serde_bencode, urlencoding, hex, itoa. Observation not armed: the parser caps `key` at 100 encoded bytes while the writer does not.",
          "DESIGN.md section 2, C14"),
+ "C16": ("normalised expression comparison of the framing arithmetic, origin analysis of routing indices, CFG argument for the connection loop",
+         "Shape clauses only: in write_response the body is written after the header, the fullness test is position+2 > len, the trailer literal, the Content-Length value itoa(body+2) and the sent slice ..header+body+2 use the same constant, digit cells are blanked before being rewritten at the same offset and 10^8 exceeds the buffer; announces and every scrape part are sent to calculate_request_consumer_index(config, hash) = hash[0] % swarm_workers with pending count = number of groups; the scrape list is cut with take(max_scrape_torrents) BEFORE partitioning (a rule that exposed a genuine defect, fix: 9d81575); the connection loop is (read, handle, write)* with write_response(handle_request(read_request().0, ..)) and cannot loop again when keep-alive is off; SO_REUSEPORT before bind.",
+         "Not decided: everything about a running tracker - TCP segmentation, scheduling, ordering across connections, isolation of malformed requests.",
+         "DESIGN.md section 2, C16"),
 }
 
 PENDING_REASON = "check under construction in this build phase (static rules designed in DESIGN.md section 2); not claimed until its rule set is validated both ways"
